@@ -1,9 +1,14 @@
 use super::cursor::{PublishedCursor, PublishedCursorReader, RewindableCursor};
-#[cfg(grevm_verif)]
-use crate::verif::atomic::{AtomicBool, AtomicUsize, Ordering};
-use std::cmp::max;
 #[cfg(not(grevm_verif))]
-use std::sync::atomic::{AtomicBool, AtomicUsize, Ordering};
+use std::{
+    cmp::max,
+    sync::atomic::{AtomicBool, AtomicUsize, Ordering},
+};
+#[cfg(grevm_verif)]
+use {
+    crate::verif::atomic::{AtomicBool, AtomicUsize, Ordering},
+    std::cmp::max,
+};
 
 #[derive(Debug)]
 struct ExecutionFrontier {
